@@ -1,8 +1,9 @@
 #!/bin/bash
 # usage: verify_seed.sh <ID> <k> <check-ID> [<check-ID>...]
-# Confirms a saboteur's change k for property ID in its worktree /tmp/mut/s-<ID> (patch applies, builds, pinned suite
-# passes, demo fails with it and passes without it), then runs the given checks of /verif against it in a scratch worktree,
-# and files it under /verif/seeded/<ID>-<k>/ (patch.diff, demo, notes, meta.json).
+# Confirms a fault-seeding agent's change k for property ID in its worktree /tmp/mut/s-<ID> (whose _build the agent left built
+# from the unmodified tree): demo passes without the patch; the patch applies, builds, the pinned suite passes and the demo
+# fails with it. In parallel, runs the given checks of /verif against the change in a scratch worktree (tools/mut/vcheck.sh).
+# Files the change under /verif/seeded/<ID>-<k>/ (patch.diff, demo, notes, meta.json).
 ID=$1; K=$2; shift 2
 WT=/tmp/mut/s-$ID; S=$WT/seeded
 LOG=/tmp/mut/verify-$ID-$K.log; : > $LOG
@@ -10,24 +11,41 @@ say() { echo "$@" | tee -a $LOG; }
 cd $WT || exit 2
 git checkout -- src include 2>/dev/null
 git apply --check $S/patch$K.diff || { say "PATCH DOES NOT APPLY"; exit 2; }
+# checks of /verif against the change, in the background (own worktree, own build tree)
+( VLINES=6 /verif/tools/mut/vcheck.sh seed-$ID-$K $S/patch$K.diff "$@" > /tmp/mut/vcheck-$ID-$K.log 2>&1 ) &
+VC=$!
+BT_JOBS=${BT_JOBS:-8} /tmp/mut/tools/bt.sh $WT build >> $LOG 2>&1      # no-op when the agent left a clean build
+bash $S/run_demo$K.sh $WT/_build >> $LOG 2>&1; dwo=$?
+say "demo_without_patch_rc=$dwo"
 git apply $S/patch$K.diff
 BT_JOBS=${BT_JOBS:-8} /tmp/mut/tools/bt.sh $WT all >> $LOG 2>&1; suite=$?
+if [ $suite -ne 0 ]; then
+  # the pure-shell tesh self-tests (no libsimgrid) flake under load even in the serial re-run: try the failed ones alone, up to 3 times
+  failed=$(grep -E "^\s*[0-9]+ - " $WT/_build/Testing/Temporary/LastTestsFailed.log 2>/dev/null | sed 's/^[0-9]*://' ; cut -d: -f2 $WT/_build/Testing/Temporary/LastTestsFailed.log 2>/dev/null)
+  ok=1
+  for t in $(cut -d: -f2 $WT/_build/Testing/Temporary/LastTestsFailed.log 2>/dev/null | sort -u); do
+    case $t in tesh-self-*) ;; *) ok=0; continue;; esac
+    pass=0
+    for i in 1 2 3; do (cd $WT/_build && ctest -R "^$t\$" > /dev/null 2>&1) && { pass=1; break; }; done
+    say "retry alone $t pass=$pass"
+    [ $pass -eq 1 ] || ok=0
+  done
+  [ $ok -eq 1 ] && { suite=0; say "suite: only load-flaky tesh-self tests failed in the parallel run; each passed when run alone"; }
+fi
 say "suite_with_patch_rc=$suite"
 bash $S/run_demo$K.sh $WT/_build >> $LOG 2>&1; dw=$?
 say "demo_with_patch_rc=$dw"
 git checkout -- src include
-BT_JOBS=${BT_JOBS:-8} /tmp/mut/tools/bt.sh $WT build >> $LOG 2>&1
-bash $S/run_demo$K.sh $WT/_build >> $LOG 2>&1; dwo=$?
-say "demo_without_patch_rc=$dwo"
-caught=""
-VLINES=6 /verif/tools/mut/vcheck.sh seed-$ID-$K $S/patch$K.diff "$@" > /tmp/mut/vcheck-$ID-$K.log 2>&1
+wait $VC
 cat /tmp/mut/vcheck-$ID-$K.log >> $LOG
+caught=""
 for c in "$@"; do
   if grep -q "^VIOLATION property=$c" /tmp/vw/seed-$ID-$K/_check_$c.log; then caught="$caught $c"; fi
 done
 say "caught_by=[$caught ]"
 D=/verif/seeded/$ID-$K; mkdir -p $D
-cp $S/patch$K.diff $D/patch.diff; cp $S/demo$K.* $S/run_demo$K.sh $D/ 2>/dev/null; cp $S/notes$K.md $D/notes.md 2>/dev/null
+cp $S/patch$K.diff $D/patch.diff; cp $S/demo$K* $S/run_demo$K.sh $D/ 2>/dev/null; cp $S/notes$K.md $D/notes.md 2>/dev/null
+for f in $S/*.hpp $S/*.h $S/*.xml $S/*.txt; do [ -f "$f" ] && cp $f $D/; done
 for c in "$@"; do grep -E "^VIOLATION|^  key=|^\[C" /tmp/vw/seed-$ID-$K/_check_$c.log | head -12 > $D/check_$c.txt; done
 python3 - <<PY
 import json
@@ -37,4 +55,5 @@ json.dump({"property": "$ID", "change": $K, "patch": "patch.diff", "demo": "run_
   "needs_to_manifest": "see notes.md", "ran": "tools/mut/verify_seed.sh $ID $K $*"}, open("$D/meta.json","w"), indent=1)
 PY
 /verif/tools/mut/vcheck.sh --rm seed-$ID-$K
+/verif/tools/mut/apply_summaries.py
 say "DONE $ID-$K suite=$suite demo_with=$dw demo_without=$dwo caught=[$caught ]"
